@@ -76,6 +76,11 @@ type Outcome struct {
 	ErrType string
 	Out     []byte
 	Timeout bool
+	// History: what the follow-up Executes on ONE reused Interpreter ended with (see runHistory);
+	// HistoryRun > 0: the panic happened in that Execute of the history, not in the first run.
+	History    []string
+	HistoryRun int
+	HistoryBad string // an expectation about the history that failed
 }
 
 // ---- Funcs fixtures (the API accepts map[string]any: hostile values are part of the configuration space) ----
@@ -315,7 +320,52 @@ func runAPI(c *Case) (o Outcome) {
 		}
 	}
 	o.Out = out.Bytes()
+	// The property quantifies over histories: a run that ended with a run-time error must leave
+	// nothing behind that makes a later Execute on the same Interpreter crash.
+	if (o.Err != "" && !o.Timeout) || c.Expect == "error" {
+		runHistory(c, prog, cfg, &o)
+	}
 	return
+}
+
+// runHistory executes the program three more times on ONE Interpreter made by interp.New:
+// Execute, Execute again (all caches and variables kept), ResetVars + Execute. A panic in any
+// of them is recovered by runAPI's deferred recover; o.HistoryRun says which Execute it was.
+func runHistory(c *Case, prog *parser.Program, cfg *interp.Config, o *Outcome) {
+	p, err := interp.New(prog)
+	if err != nil {
+		o.History = append(o.History, "New: "+err.Error())
+		return
+	}
+	for k := 1; k <= 3; k++ {
+		var out bytes.Buffer
+		cfg.Output, cfg.Error = &out, &out
+		cfg.Stdin = strings.NewReader(unhx(c.InputHex))
+		if c.Cuts != nil {
+			cfg.Stdin = newChunkReader(unhx(c.InputHex), c.Cuts, c.LastEOF)
+		}
+		if k == 3 {
+			p.ResetVars()
+		}
+		o.HistoryRun = k
+		ctx, cancel := context.WithTimeout(context.Background(), 10*time.Second)
+		st, err := p.ExecuteContext(ctx, cfg)
+		timedOut := ctx.Err() != nil
+		cancel()
+		if timedOut {
+			o.History = append(o.History, fmt.Sprintf("Execute #%d: timeout", k))
+			break
+		}
+		if err != nil {
+			o.History = append(o.History, fmt.Sprintf("Execute #%d: error: %s", k, err))
+		} else {
+			o.History = append(o.History, fmt.Sprintf("Execute #%d: status %d", k, st))
+			if c.Expect == "error" && o.HistoryBad == "" {
+				o.HistoryBad = fmt.Sprintf("Execute #%d on the reused Interpreter returned no error", k)
+			}
+		}
+	}
+	o.HistoryRun = 0
 }
 
 var goawkBin string
@@ -415,6 +465,11 @@ func (c *Case) Detail(o Outcome) map[string]any {
 		"case": c, "program": show(unhx(c.SrcHex)), "input": show(unhx(c.InputHex)),
 		"got_panic": o.Panic, "got_site": o.Site, "got_status": o.Status, "got_error": show(o.Err),
 		"got_output": show(string(o.Out)), "expected": "an exit status or an error value, no panic",
+	}
+	if o.HistoryRun > 0 {
+		d["history"] = fmt.Sprintf("the panic happened in Execute #%d (of Execute, Execute, ResetVars+Execute) on ONE Interpreter made by interp.New after the first run had ended with error %q; earlier Executes of that Interpreter: %q", o.HistoryRun, o.Err, o.History)
+	} else if len(o.History) > 0 {
+		d["history"] = fmt.Sprintf("%q", o.History)
 	}
 	if c.Cuts != nil {
 		d["delivery"] = fmt.Sprintf("input delivered in Reads of sizes %v (rest in one Read), io.EOF with the last bytes: %v", c.Cuts, c.LastEOF)
